@@ -3,6 +3,8 @@
 package bag
 
 import (
+	"encoding/json"
+	"math/big"
 	"strings"
 
 	"github.com/ohler55/ojg/jp"
@@ -144,6 +146,9 @@ func ObjectToBag(s *slip.Scope, obj slip.Object, depth int) (v any) {
 			}
 		}
 		v = list
+	case *slip.Bignum:
+		// The form the parsers use for an integer that does not fit an int64.
+		v = json.Number((*big.Int)(val).String())
 	case *flavors.Instance:
 		if val.Type != flavor {
 			slip.TypePanic(s, depth, "value", val, "nil", "t", ":false", "integer", "float", "string", "symbol", "gi::time",
